@@ -39,6 +39,10 @@ type target struct {
 	To   string   // the last statement: the first statement at or after From in the same statement list starting with To
 	Out  []string // variables (or `x.f` field pseudo-variables) whose values after the range are the result
 	Cond bool     // append the condition of the `if` statement that FOLLOWS the range (evaluated after the range) to the result
+	// IF-HEAD fragment: the statement starting with From is an `if`; the fragment is its init statement (if any) followed by
+	// its CONDITION — result = Out variables (may be empty) + the condition. The body / else of the `if` is not part of it
+	// (so it may `continue`, call impure code, …).
+	Head bool
 }
 
 var targets = []target{
@@ -74,6 +78,14 @@ var targets = []target{
 		From: "length := binary.BigEndian.Uint32", To: "if length > maxRecvMessageSize", Out: []string{"length"}},
 	{Pkg: "webbridge", Recv: "gwsGRPCWebHandler", Name: "OnMessage", As: "onMessage_frame",
 		From: "if len(data) > 0 {", To: "if len(data) >= 6 {", Out: []string{"stream.closed", "event.err", "event.data"}, Cond: true},
+	// C19: parseMetadataQuery — the key-shape test `param[` … `]` (if-head; the body `continue`s the map loop) and the key slice
+	{Pkg: "webbridge", Name: "parseMetadataQuery", As: "mdQuery_keyTest", From: "if !(strings.HasPrefix(k, param+", Head: true},
+	{Pkg: "webbridge", Name: "parseMetadataQuery", As: "mdQuery_mdKey", From: "mdKey := k[", To: "mdKey := k[", Out: []string{"mdKey"}},
+	// C12 / C07: ProxyForwarder.baseContext — grpc-timeout presence test and first-value decode (if-heads)
+	{Pkg: "grpcadapter", Recv: "ProxyForwarder", Name: "baseContext", As: "baseContext_present",
+		From: "if v := md.Get(metadataTimeout)", Head: true, Out: []string{"v"}},
+	{Pkg: "grpcadapter", Recv: "ProxyForwarder", Name: "baseContext", As: "baseContext_decode",
+		From: "if d, ok := decodeTimeout(v[0])", Head: true, Out: []string{"d"}},
 	// C10: the code → HTTP status table webbridge.errorStatus uses lives in the grpc-gateway dependency
 	{Pkg: "github.com/grpc-ecosystem/grpc-gateway/v2/runtime", Dep: true, Name: "HTTPStatusFromCode"},
 }
@@ -124,6 +136,9 @@ func leanType(n ast.Node, T types.Type) string {
 		o := named.Obj()
 		if o.Pkg() != nil && o.Pkg().Path() == "net/http" && o.Name() == "Header" {
 			return tHdr
+		}
+		if o.Pkg() != nil && o.Pkg().Path() == "google.golang.org/grpc/metadata" && o.Name() == "MD" {
+			return tHdr // metadata.MD, modelled by its Get function (key lower-casing is grpc's)
 		}
 		if o.Pkg() == nil && o.Name() == "error" {
 			return tErr
@@ -625,6 +640,13 @@ func (t *tr) call(x *ast.CallExpr) string {
 				}
 			}
 			recv := leanType(f.X, sel.Recv())
+			if sel.Recv().String() == "google.golang.org/grpc/metadata.MD" {
+				if f.Sel.Name == "Get" && len(x.Args) == 1 {
+					t.libUsed["(google.golang.org/grpc/metadata.MD).Get"] = true
+					return "(" + t.expr(f.X) + " " + t.expr(x.Args[0]) + ")"
+				}
+				fail(x, "method call %s.%s outside the subset", sel.Recv(), f.Sel.Name)
+			}
 			if recv == tHdr && (f.Sel.Name == "Values" || f.Sel.Name == "Get") && len(x.Args) == 1 {
 				t.libUsed["(net/http.Header)."+f.Sel.Name] = true
 				v := "(" + t.expr(f.X) + " " + t.expr(x.Args[0]) + ")"
@@ -1441,6 +1463,12 @@ func srcText(n ast.Node) string {
 
 // the statement range [From … To] of a fragment target, and the statement that follows it (nil if none)
 func findRange(fd *ast.FuncDecl, tg target) ([]ast.Stmt, ast.Stmt) {
+	if tg.Head {
+		if tg.To != "" || tg.Cond {
+			fail(fd, "fragment: Head excludes To / Cond")
+		}
+		tg.To = tg.From
+	}
 	var found [][]ast.Stmt
 	var nexts []ast.Stmt
 	try := func(list []ast.Stmt) {
@@ -1477,15 +1505,32 @@ func findRange(fd *ast.FuncDecl, tg target) ([]ast.Stmt, ast.Stmt) {
 	return found[0], nexts[0]
 }
 
-func (t *tr) setupFragment(fd *ast.FuncDecl, tg target) ([]ast.Stmt, []string) {
+func (t *tr) setupFragment(fd *ast.FuncDecl, tg target) ([]ast.Stmt, []string, ast.Node, ast.Node) {
 	list, next := findRange(fd, tg)
 	t.frag = true
 	t.fragLo, t.fragHi = list[0].Pos(), list[len(list)-1].End()
+	var first, last ast.Node = list[0], list[len(list)-1]
 	t.fragRets = map[*ast.ReturnStmt]int{}
 	t.pseudos = map[[2]types.Object]*types.Var{}
+	if tg.Head {
+		ifs, ok := list[0].(*ast.IfStmt)
+		if !ok || len(list) != 1 {
+			fail(list[0], "fragment: Head needs an `if` statement")
+		}
+		t.fragHi = ifs.Cond.End()
+		last = ifs.Cond
+		t.fragCond = ifs.Cond
+		list = nil
+		if ifs.Init != nil {
+			list = []ast.Stmt{ifs.Init}
+		}
+	}
 	var nodes []ast.Node
 	for _, s := range list {
 		nodes = append(nodes, s)
+	}
+	if tg.Head {
+		nodes = append(nodes, t.fragCond)
 	}
 	if tg.Cond {
 		ifs, ok := next.(*ast.IfStmt)
@@ -1559,7 +1604,7 @@ func (t *tr) setupFragment(fd *ast.FuncDecl, tg target) ([]ast.Stmt, []string) {
 		outTypes = append(outTypes, tBool)
 	}
 	if len(outTypes) == 0 {
-		fail(list[0], "fragment without outputs")
+		fail(first, "fragment without outputs")
 	}
 	t.retType = outTypes[0]
 	if len(outTypes) > 1 {
@@ -1568,7 +1613,7 @@ func (t *tr) setupFragment(fd *ast.FuncDecl, tg target) ([]ast.Stmt, []string) {
 	if len(t.fragRets) > 0 {
 		t.retType = "(GB.Trans.Frag " + t.retType + ")"
 	}
-	return list, params
+	return list, params, first, last
 }
 
 func translate(p *packages.Package, fd *ast.FuncDecl, name string, leanOf map[*types.Func]string, tg target) (res result, err error) {
@@ -1591,10 +1636,10 @@ func translate(p *packages.Package, fd *ast.FuncDecl, name string, leanOf map[*t
 		if fd.Body == nil {
 			fail(fd, "function without a body")
 		}
-		list, params := t.setupFragment(fd, tg)
+		list, params, first, last := t.setupFragment(fd, tg)
 		body := t.stmts(list, ctx{}, 1)
 		res.Name = name
-		res.Source = rel(list[0].Pos())
+		res.Source = rel(first.Pos())
 		res.Go = p.PkgPath + "." + fd.Name.Name
 		if tg.Recv != "" {
 			res.Go = p.PkgPath + "." + tg.Recv + "." + fd.Name.Name
@@ -1610,10 +1655,9 @@ func translate(p *packages.Package, fd *ast.FuncDecl, name string, leanOf map[*t
 		if len(t.abstract) > 0 {
 			fail(fd, "fragment using an uninterpreted library function outside the subset")
 		}
-		last := list[len(list)-1]
 		res.text = fmt.Sprintf("/-- translated from the statements %s … line %d of `%s` (from %q to %q; outputs %s%s) -/\ndef %s %s : %s :=\n%s",
 			res.Source, fset.Position(last.End()).Line, res.Go, tg.From, tg.To, strings.Join(tg.Out, ", "),
-			map[bool]string{true: ", condition of the following if", false: ""}[tg.Cond], name, strings.Join(params, " "), t.retType, body)
+			map[bool]string{true: ", condition of the following if", false: ""}[tg.Cond]+map[bool]string{true: "; IF-HEAD: init statement + condition of this if", false: ""}[tg.Head], name, strings.Join(params, " "), t.retType, body)
 		return res, nil
 	}
 	if fd.Type.TypeParams != nil {
